@@ -133,9 +133,15 @@ def do_chunk(args):
         cls = lab.split("/")[0]
         mname = lab.split("/")[1] if "/" in lab else (gen.classify(s) if s is not None else None) or "none"
         if isinstance(r, Death):
-            acc.inconc("worker death (%s in %s) on %s" % (r.kind(), r.frame(), ln[:100]))
             acc.count("deaths")
             prev_kind = "fresh"
+            if gen.must_fail(p, s):
+                # a request that can never be honoured has to be refused, not to take the process down
+                acc.violation("%s/died-instead-of-refusing/%s/%s" % (PID, cls, mname),
+                              "%s: the process died (%s in %s) on a request that must fail: %s" % (
+                                  lab, r.kind(), r.frame(), ln[:200]), rt.replay_obj(FL, setup + [ln], r.brief()))
+            else:
+                acc.inconc("worker death (%s in %s) on %s" % (r.kind(), r.frame(), ln[:100]))
             continue
         if isinstance(r, Timeout) or r is None:
             acc.inconc("timeout " + ln[:100])
